@@ -61,7 +61,7 @@ struct CyGraph {
 }
 
 const CYC_CATEGORIES: &[&str] = &[
-    "ring-2", "ring-3", "ring-4", "ring-5", "ring-6plus", "acyclic", "self-loop", "link-fn", "link-nsfn", "link-method",
+    "ring-2", "ring-3", "ring-4", "ring-5", "acyclic", "self-loop", "link-fn", "link-nsfn", "link-method",
     "link-template", "link-default-argument", "link-global-initialiser", "with-pipeline", "no-pipeline", "figure-eight",
     "chords", "complete", "tail-in", "tail-out", "deep-chain", "tree", "dag", "resource-in-cycle", "random",
 ];
